@@ -1892,6 +1892,19 @@ class Engine:
             if e.func.value.value == "{}" and len(args) == 1 and isinstance(args[0], (int, Num)):
                 return FmtKey(args[0])
             return "<formatted>"
+        # zip(*rows) over a sequence of symbolic length whose rows have a fixed width: the transposition (one sequence per column)
+        if isinstance(e.func, ast.Name) and e.func.id == "zip" and len(e.args) == 1 and isinstance(e.args[0], ast.Starred) and not e.keywords:
+            rows = self.as_iterable(self.eval(e.args[0].value, env))
+            if isinstance(rows, SymSeq) and not isinstance(rows.n, int):
+                probe = self.spec_eval(lambda: rows.get(0))
+                if not isinstance(probe, (list, tuple)):
+                    raise Unsupported("zip(*rows) over rows that are not fixed-width lists")
+                cols = []
+                for c in range(len(probe)):
+                    col = SymSeq(rows.n, (lambda k, c=c: rows.get(k)[c]), kind="tuple")
+                    col.column_of = (getattr(rows, "rowid", None), c)
+                    cols.append(col)
+                return cols
         f = self.eval(e.func, env)
         pos = []
         for a in e.args:
